@@ -306,13 +306,21 @@ def run_check(mod, tier, seed, replay=None):
     disagreements, failures, known_hits = [], [], {}
     impl_obs = []
     t_impl = time.time()
+    journal = os.path.join(OUT, 'replays', '.current-%s.json' % pid)
+    os.makedirs(os.path.dirname(journal), exist_ok=True)
     for c in cases:
         try:
+            # the case about to run, for the supervisor in harness/main.py: should the interpreter itself die here
+            # (a segmentation fault inside scipy / h5py on arrays a changed library wrote), this is the replay
+            with open(journal, 'w') as jf:
+                json.dump(c, jf, default=str)
             impl_obs.append(canon(mod.run_impl(c)))
         except Exception as e:      # the implementation (or the harness driving it) crashed on this case
             import traceback
             impl_obs.append(['crash', type(e).__name__, traceback.format_exc()[-800:]])
     t_impl = time.time() - t_impl
+    if os.path.exists(journal):
+        os.remove(journal)
     model_obs = [None] * len(cases)
     n_vm = 0
     if model_ok:
